@@ -608,7 +608,20 @@ def rule_replicated_store(ctx: Ctx) -> None:
                     inner = [w_ for w_ in walk_stmts(lp[0].body) if isinstance(w_, ast.While) and any(s is x for x in walk_stmts(w_.body))]
                     if not inner:
                         ok = False
-        ctx.ob("C17-5", "G2", fn, lp[0] if lp else None, ok, f"{q} sends the operation to every replica, whatever the consistency level asked for (replicas do not diverge by construction)")
+            # ... and no iteration is cut short before the replica was asked: a `continue` is reached only after the turn was taken (i.e. from
+            # the failure handling of the replica call), never from a pre-check made before waiting for the turn — what the replica holds
+            # *now* says nothing about the mutations of the key still queued ahead of this one
+            if ok and turns:
+                for s in walk_stmts(lp[0].body):
+                    if isinstance(s, ast.Continue) and not any(isinstance(w_, (ast.While, ast.For)) and w_ is not lp[0] and any(s is x for x in walk_stmts(w_.body)) for w_ in walk_stmts(lp[0].body)):
+                        # the turn must have been taken in *this* iteration: on the way from the loop head to the `continue`
+                        ff_ = ctx.flow(fn)
+                        head = next(n_ for n_ in ff_.cfg.nodes if n_.kind == "for" and n_.ast is lp[0])
+                        tn, cn_ = node_of(ff_.cfg, turns[0]), node_of(ff_.cfg, s)
+                        for p_ in enumerate_paths(ff_, head, stop=lambda x: x is cn_):
+                            if p_.end == "stop" and p_.nodes[-1] is cn_ and tn not in p_.nodes[1:]:
+                                ok = False
+        ctx.ob("C17-5", "G2", fn, lp[0] if lp else None, ok, f"{q} sends the operation to every replica, whatever the consistency level asked for and whatever the replica holds at the moment (replicas do not diverge by construction)")
     rr = prog.func(RS, "ReplicatedStore._required_responses")
     rets = [unparse(s.value).replace(" ", "") for s in walk_stmts(rr.node.body) if isinstance(s, ast.Return)]
     qs = prog.func(RS, "ReplicatedStore.quorum_size")
@@ -683,6 +696,7 @@ def run(ctx: Ctx) -> None:
 
 MUTANTS = [
     ("ml-same-version-is-a-conflict", ML, '            elif _vc_dominates(existing_vc, incoming_vc) or _same_version(existing, incoming):', "            elif _vc_dominates(existing_vc, incoming_vc):", "C17-4"),
+    ("replicated-delete-skips-replicas-without-the-key", RS, "        for index, replica in enumerate(self._replicas):\n            turn = yield from self._mutation_turn(index, key)\n            try:\n                gen = replica.delete(key)", "        for index, replica in enumerate(self._replicas):\n            if hasattr(replica, \"contains\") and not replica.contains(key):\n                acks += 1\n                continue\n            turn = yield from self._mutation_turn(index, key)\n            try:\n                gen = replica.delete(key)", "C17-5"),
     ("replicated-delete-skips-turn", RS, "        for index, replica in enumerate(self._replicas):\n            turn = yield from self._mutation_turn(index, key)\n            try:\n                gen = replica.delete(key)", "        for index, replica in enumerate(self._replicas):\n            turn = SimFuture()\n            try:\n                gen = replica.delete(key)", "C17-5"),
     ("replicate-merkle-records-incoming-not-winner", ML, "                    yield from self._store.put(key, winner.value)\n                    self._merkle.update(key, winner.value)\n\n        return None", "                    yield from self._store.put(key, winner.value)\n                    self._merkle.update(key, incoming.value)\n\n        return None", "C17-4"),
     ("vcmerge-fallback-local-wins-ties", CR, "        return LastWriterWins().resolve(key, [a, b])", "        return b if a.timestamp < b.timestamp else a", "C17-4"),
